@@ -125,5 +125,12 @@ func VH_C09_SharedReads() {
 	vhRO_DaYun(yun.GetDaYun()[1])
 	vhRO_SolarWeek(NewSolarWeekFromYmd(Y, 2, 10, 1))
 	vhRO_SolarMonth(NewSolarMonthFromYm(Y, 2))
+	vhRO_SolarYear(NewSolarYearFromYear(Y))
+	vhRO_SolarSeason(NewSolarSeasonFromYm(Y, 2))
+	vhRO_SolarHalfYear(NewSolarHalfYearFromYm(Y, 2))
+	ln := yun.GetDaYun()[1].GetLiuNian()[0]
+	vhRO_LiuNian(ln)
+	vhRO_LiuYue(ln.GetLiuYue()[0])
+	vhRO_XiaoYun(yun.GetDaYun()[1].GetXiaoYun()[0])
 	vReach("C09c")
 }
